@@ -13,8 +13,9 @@ The WHERE pattern only *produces* the input solution sequence (C04 is a differen
   optional : VALUES ?r { <r0> … } ?r <t> <T> . OPTIONAL { ?r <pa> ?a } …   over a graph holding the cells (allows blank nodes)
   bgp      : ?r <pa> ?a . ?r <pb> ?b .        — all cells bound; solution order is whatever the store yields
   empty    : a BGP that matches nothing
-Observation: Result.vars, then Result.bindings — as a sequence when ORDER BY is present, else as a bag
-(only the count for LIMIT/OFFSET without ORDER BY).  Oracle: an independent evaluator of SPARQL 1.1 §18.5
+Observation: Result.vars, then Result.bindings — as a sequence when ORDER BY is present (runs of rows whose
+sort keys are projected and equal are sorted), else as a bag (only the count for LIMIT/OFFSET without ORDER BY).
+A None-valued binding counts as unbound.  Oracle: an independent evaluator of SPARQL 1.1 §18.5
 over the known input (fractions.Fraction numerics), written as a *checker* of the implementation's answer
 because several clauses admit more than one answer (SAMPLE, ties, incomparable sort keys, errors inside aggregates).
 """
@@ -735,7 +736,7 @@ def obs_lines(case, vars_, rows, exc=None):
     if q["order"]:
         body = seq_canon(case, vars_, rows)
         return [line0, "seq " + " | ".join(",".join(r) for r in body)]
-    if sliced or q["mod"] == "REDUCED" and False:
+    if sliced:  # LIMIT/OFFSET without ORDER BY: which rows is not determined, only how many (membership: checker)
         return [line0, f"n {len(rows)}"]
     return [line0, "bag " + " | ".join(",".join(r) for r in sorted(rows))]
 
